@@ -705,6 +705,7 @@ fn deliver_and_check(
                     "order_kind": format!("{kind:?}"), "threads": threads, "readers": readers, "delay_plan": with_plan,
                     "order": order.iter().map(|x| format!("{}#{}{}", hx(x), rc.get(x).number, if rc.get(x).chain_valid {""} else {"!"})).collect::<Vec<_>>(),
                     "post_mortem": post_mortem,
+                    "in_repo_frames": p.frames,
                     "callbacks": callbacks.lock().unwrap().iter().map(|c| format!("{} ok={:?} err={:?}", hx(&c.hash), c.ok, c.err.as_ref().map(|e| e.chars().take(70).collect::<String>()))).collect::<Vec<_>>(),
                 }),
             );
